@@ -245,7 +245,7 @@ def hypothesis_shard(item: dict[str, Any]) -> Collector:
             mask = [draw(st.booleans()) for _ in range(n)]
             if not any(mask):
                 mask[draw(st.integers(0, n - 1))] = True
-        return {
+        case = {
             "reuse_transform": tkind in ("var", "all", "var-scales-only") and l_n > 0 and draw(st.sampled_from([False, False, False, True, "before"])),
             "mask": mask, "near": near,
             "n": n, "R": r_n, "L": l_n, "C": c_n, "x": x, "lb": lb, "ub": ub,
@@ -256,6 +256,16 @@ def hypothesis_shard(item: dict[str, Any]) -> Collector:
             "oscale": draw(st.sampled_from([2.0, 0.1])) if tkind == "all" else None,
             "cscale": [draw(st.sampled_from([0.5, 4.0])) for _ in range(c_n)] if tkind in ("all", "con") and c_n else None,
         }
+        if case["reuse_transform"] == "before" and draw(st.booleans()):
+            # rows whose largest scaled coefficient is exactly one (scales 0.5 / 2 / 10 applied to 2 / 0.5 / 0.1-like entries):
+            # the row scaling of this configuration is 'nothing to do', that of the configuration validated before is not
+            vs = case["vscale"]
+            for row in case["A"]:
+                lead = draw(st.integers(0, n - 1))
+                for j in range(n):
+                    row[j] = (draw(st.sampled_from([1.0, -1.0])) if j == lead else draw(st.sampled_from([0.0, 0.25, -0.5]))) / vs[j]
+            case["normalized_rows"] = True
+        return case
 
     def body(case: dict[str, Any]) -> None:
         info = run_case(case)
